@@ -21,9 +21,23 @@
                    point decompression answers are the points of the encoded Round2 values
      kind 8: (8 ((L0 L1)...) (label...))  the output-decoding step of EvaluatorRound4: the Round3 output
                 hints and the labels the evaluator holds on the output wires
-                -> (1) error (a label that is neither hint of its wire, on ANY wire) | (0 (digest byte...)) *)
+                -> (1) error (a label that is neither hint of its wire, on ANY wire) | (0 (digest byte...))
+     kind 9: (9 curve (byte...) answer)  elliptic.UnmarshalCompressed(curve, bytes); answer = () when it
+                returned nil, (y) the Y it returned
+                -> (0) rejected, as the specification demands | (1 x y) the point the encoding names
+                 | (2) the answer is not that point | (3) rejected although the point exists
+     kind 10: (10)                    -> ((id P B Gx Gy onCurve(G))x4) curve parameters and IsOnCurve
+     kind 11: the argument validation of the four round functions (IO/Sha2pcRounds.v), the outcome
+                classes of the cryptographic cores given as flags:
+                (11 1 rngNil curveNil curve genOK sidOK)                                   GarblerRound1
+                (11 2 rngNil curveNil curve (name...) ax ay choicesOK)                     EvaluatorRound2
+                (11 3 rngNil curveNil curve stateNil scalarNil sidState sidMsg keyOK garbleOK
+                      ax ay ainvx ainvy (px...) (py...) nWires)                            GarblerRound3
+                (11 4 curveNil curve stateNil sidState sidMsg nScalars nBits nCts ax ay evalOK
+                      ((L0 L1)...) (label...))                                             EvaluatorRound4
+                -> (0 ...) Ok (round 4: the digest bytes) | (1 code) the named error | (2) panic *)
 From Coq Require Import ZArith NArith List Bool.
-From Mpc Require Import Gen.Consts Base.Sx Base.Codec IO.Sha2pcCodec.
+From Mpc Require Import Gen.Consts Base.Sx Base.Codec IO.Sha2pcCodec IO.Sha2pcRounds.
 Import ListNotations.
 
 Definition curve_of_Z (z : Z) : curve :=
@@ -160,9 +174,85 @@ Definition run_history_obs (c : curve) (ops : list hop) : sx :=
                              ofnat (match snd e with Ok b => length b | _ => 0%nat end)]) st);
        SL (map res_value_obs rs) ].
 
+(* ---- kind 9 / 10: compressed points and curve parameters *)
+Definition uc_obs (v : uc_verdict) : sx :=
+  match v with
+  | UCReject => SL [SZ 0]
+  | UCAccept x y => SL [SZ 1; ofN x; ofN y]
+  | UCBadAnswer => SL [SZ 2]
+  | UCMissed => SL [SZ 3]
+  end.
+
+Definition curves_obs : sx :=
+  SL (map (fun c => SL [SZ (curve_id c); ofN (curve_p c); ofN (curve_b c);
+                        ofN (fst (curve_g c)); ofN (snd (curve_g c)); ofB (on_curve c (curve_g c))]) all_curves).
+
+(* ---- kind 11: the rounds with their validation; the cores are stand-ins
+   whose outcome class is an input *)
+Definition rerr_code (e : rerr) : Z :=
+  match e with
+  | ENilRandom => 1 | ENilCurve => 2 | EInvalidGarblerSession => 3 | EInvalidEvaluatorState => 4
+  | ESessionMismatch => 5 | ECurveMismatch => 6 | EInputBits => 7 | ERandom => 8
+  | EPointNotOnCurve => 9 | EPointCount => 10 | EBundle => 11 | EGarble => 12 | EEval => 13
+  | EHintCount => 14 | EUnknownLabel => 15 | EOutputLength => 16 | EDecode => 17 | EEncode => 18
+  end%Z.
+
+Definition vres_obs {A} (r : vres A) (f : A -> list sx) : sx :=
+  match r with
+  | VOk a => SL (SZ 0 :: f a)
+  | VErr e => SL [SZ 1; SZ (rerr_code e)]
+  | VPanic => SL [SZ 2]
+  end.
+
+Definition flag_core {A} (ok : bool) (a : A) : vres A := if ok then VOk a else VErr ERandom.
+Definition opt_of {A} (isnil : bool) (a : A) : option A := if isnil then None else Some a.
+
+Definition run_round_validation (inp : sx) : sx :=
+  let fn := getZ (nthx 1 inp) in
+  if Z.eqb fn 1 then
+    let c := curve_of_Z (getZ (nthx 4 inp)) in
+    vres_obs (GarblerRound1_v unit (fun _ c' => flag_core (getB (nthx 5 inp)) (1%N, curve_g c', curve_g c'))
+                              (fun _ => flag_core (getB (nthx 6 inp)) 7%N)
+                              (opt_of (getB (nthx 2 inp)) tt) (opt_of (getB (nthx 3 inp)) c))
+             (fun _ => [])
+  else if Z.eqb fn 2 then
+    let c := curve_of_Z (getZ (nthx 4 inp)) in
+    vres_obs (EvaluatorRound2_v unit (fun _ _ _ _ _ => flag_core (getB (nthx 8 inp)) ([], []))
+                                (opt_of (getB (nthx 2 inp)) tt) (opt_of (getB (nthx 3 inp)) c)
+                                (mkR1 0 (getLN (nthx 5 inp)) (getN (nthx 6 inp)) (getN (nthx 7 inp))) (repeat 0%N 32%nat))
+             (fun _ => [])
+  else if Z.eqb fn 3 then
+    let c := curve_of_Z (getZ (nthx 4 inp)) in
+    let st := mkGS (getN (nthx 7 inp)) (curve_name c) 1 (getN (nthx 11 inp)) (getN (nthx 12 inp)) (getN (nthx 13 inp)) (getN (nthx 14 inp)) in
+    let req := mkR2 (getN (nthx 8 inp)) (curve_name c) (combine (getLN (nthx 15 inp)) (getLN (nthx 16 inp))) in
+    let nw := getnat (nthx 17 inp) in
+    vres_obs (GarblerRound3_v unit (fun _ => flag_core (getB (nthx 9 inp)) (repeat 0%N 32%nat))
+                              (fun _ _ => flag_core (getB (nthx 10 inp))
+                                            (repeat (0%N, 0%N) 256%nat, repeat (0%N, 0%N) nw, repeat (0%N, 0%N) 256%nat, []))
+                              (fun _ _ pts _ => map (fun _ => (0%N, 0%N)) pts)
+                              (opt_of (getB (nthx 2 inp)) tt) (opt_of (getB (nthx 3 inp)) c)
+                              (opt_of (getB (nthx 5 inp)) st) (getB (nthx 6 inp)) (repeat 0%N 32%nat) req)
+             (fun _ => [])
+  else
+    let c := curve_of_Z (getZ (nthx 3 inp)) in
+    let st := mkES (getN (nthx 5 inp)) (curve_name c) (getN (nthx 10 inp)) (getN (nthx 11 inp))
+                   (repeat 1%N (getnat (nthx 7 inp))) (repeat false (getnat (nthx 8 inp))) in
+    let hints := map (fun p => (getN (nthx 0 p), getN (nthx 1 p))) (getL (nthx 13 inp)) in
+    let msg := mkR3 (getN (nthx 6 inp)) [] [] [] hints (repeat (0%N, 0%N) (getnat (nthx 9 inp))) in
+    let outl := getLN (nthx 14 inp) in
+    vres_obs (EvaluatorRound4_v (fun _ _ _ => [])
+                                (fun _ _ _ _ => if getB (nthx 12 inp) then VOk outl else VErr EEval)
+                                (opt_of (getB (nthx 2 inp)) c) (opt_of (getB (nthx 4 inp)) st) msg)
+             (fun d => [ofLN d]).
+
 Definition run_c18 (inp : sx) : sx :=
   let kind := getZ (nthx 0 inp) in
   if Z.eqb kind 0 then consts_obs
+  else if Z.eqb kind 9 then
+    uc_obs (unmarshal_compressed (curve_of_Z (getZ (nthx 1 inp))) (getLN (nthx 2 inp))
+              (match getL (nthx 3 inp) with y :: _ => Some (getN y) | [] => None end))
+  else if Z.eqb kind 10 then curves_obs
+  else if Z.eqb kind 11 then run_round_validation inp
   else if Z.eqb kind 6 then
     let by_ := bitsToBytesLittle (getLB (nthx 1 inp)) in
     SL [ofLN by_; ofLB (bytesToBitsLittle by_)]
